@@ -60,6 +60,9 @@ func TestVerifC14(t *testing.T) {
 	if s == nil {
 		return
 	}
+	if s.Inject != "" {
+		return // the injected-failure runs cover the three kinds of file of the property; the cache files are not one
+	}
 	r := vfNewRand(s.Seed)
 	ctx := context.Background()
 
